@@ -175,6 +175,35 @@ static const char *S_LFD =
 " }\n"
 "}\n";
 
+/* submodules served through the import callback: module lfe<k> (sent by the generator as a `ymod` text) includes lfesub<k>, which
+ * imports the base module of set k under a prefix of ITS OWN and derives identities from its base identity (seed C17r3: the revert
+ * of a failed load has to unlink them from the surviving base) */
+static const char *S_LFESUB[3] = {
+"submodule lfesub0 {yang-version 1.1; belongs-to lfe0 {prefix e;} import lfa {prefix q;}\n"
+" identity es1 {base q:base-id;} identity es2 {base q:id-a;} identity es3 {base es1;}}\n",
+"submodule lfesub1 {yang-version 1.1; belongs-to lfe1 {prefix e;} import lfb {prefix q;}\n"
+" identity es1 {base q:proto;} identity es2 {base q:proto;} identity es3 {base es1;}}\n",
+"submodule lfesub2 {yang-version 1.1; belongs-to lfe2 {prefix e;} import lfd {prefix q;}\n"
+" identity es1 {base q:kind;} identity es2 {base q:k1;} identity es3 {base es1;}}\n",
+};
+
+static LY_ERR
+life_imp_clb(const char *mod_name, const char *mod_rev, const char *submod_name, const char *submod_rev, void *user_data,
+        LYS_INFORMAT *format, const char **module_data, ly_module_imp_data_free_clb *free_module_data)
+{
+    int k;
+
+    (void)mod_name; (void)mod_rev; (void)submod_rev; (void)user_data;
+    if (submod_name && !strncmp(submod_name, "lfesub", 6) && (submod_name[6] >= '0') && (submod_name[6] <= '2') && !submod_name[7]) {
+        k = submod_name[6] - '0';
+        *format = LYS_IN_YANG;
+        *module_data = S_LFESUB[k];
+        *free_module_data = NULL;
+        return LY_SUCCESS;
+    }
+    return LY_ENOTFOUND;
+}
+
 #define NSETS 3
 static const char *const *
 schema_set(int n, int *cnt)
@@ -1481,6 +1510,7 @@ new_ctx(int set, uint32_t opts)
     if (ly_ctx_new(NULL, opts, &c) || !c) {
         return NULL;
     }
+    ly_ctx_set_module_imp_clb(c, life_imp_clb, NULL);
     mods = schema_set(set, &cnt);
     for (i = 0; i < cnt; i++) {
         if (lys_parse_mem(c, mods[i], LYS_IN_YANG, NULL)) {
